@@ -188,3 +188,15 @@ class Outer:
 
 
 Inner = Outer.Inner
+
+
+class Modèle:
+    """an untrusted class whose name is not ASCII"""
+
+    def __init__(self, v=1):
+        self.v = v
+
+
+class 模型:
+    def __init__(self, v=2):
+        self.v = v
